@@ -4,7 +4,7 @@ import GoUefi.Gen
   Line-protocol operations that run the TRANSLATED code (`GoUefi/Gen.lean`, regenerated from the Go
   source by tools/go2lean) on the inputs of the correspondence harness, and answer in exactly the
   format of the hand-written model's operations (`sigdb.read`, `sigdb.ops`, `auth.read`,
-  `wincert.read`, `var.sign`).  The harness compares the two answers: this validates the translator (and the
+  `wincert.read`, `var.sign`; `gen.testfs.stored`: with what the real store holds).  The harness compares the two answers: this validates the translator (and the
   abstraction the refinement theorems use) on every generated case.  Part of the `gendriver`
   executable only, so that a source change the translator cannot handle does not take the model
   driver down with it.
@@ -186,6 +186,24 @@ def genVarSign (name guid attrs tm payload sd : String) : String :=
     let r2 := signature.SignEFIVariable X2 v m ⟨0⟩ ⟨[], [], [], 0⟩
     s!"ok {hex r2.2.1} buf={hex r1.1.AuthInfo.CertData}"
 
+/-- `gen.testfs.stored`: runs the TRANSLATED `testfs.TestFS.WriteVar` on a variable called `name` (hex of the
+    name's bytes) and a value object that appends `value` at every call site, with `EFIFS.WriteVar` — the
+    external function — replaced by one that does what the real one does with the value it is handed (marshals
+    it into an empty buffer) and reports those bytes through its error.  Answer: `ok <hex of the bytes that
+    reach the variable's file behind the attributes>`; the harness compares it with what the REAL `TestFS`
+    stored for the same name and marshalled value, read back raw. -/
+def genTestfsStored (name value : String) : String :=
+  match String.fromUTF8? (ByteArray.mk (unhex name).toArray) with
+  | none => "skip name-not-utf8"   -- a Go string that is not valid UTF-8 is outside the translation's model
+  | some nm =>
+    let bs := unhex value
+    let t : efivar.Marshallable := ⟨fun _ => bs, fun _ b => b ++ bs⟩
+    let X : testfs.Externals := ⟨fun _ _ e => some (hex (e.Marshal 0 []))⟩
+    let v : efivar.Efivar := ⟨nm, ⟨0, 0, 0, [0, 0, 0, 0, 0, 0, 0, 0]⟩, 0⟩
+    match testfs.TestFS.WriteVar X ⟨⟨⟨false, false, ⟨⟩⟩⟩, ⟨⟩⟩ v t with
+    | some h => "ok " ++ h
+    | none => "not-handed-on"
+
 def handleGen (op : String) (args : List String) : Option String :=
   match op, args with
   | "gen.sigdb.read", [h] =>
@@ -250,6 +268,7 @@ def handleGen (op : String) (args : List String) : Option String :=
     let r := util.ReadNullString (bs.length / 2 + 1) bs
     some s!"{hex r.2} rest={r.1.length}"
   | "gen.varsign", [name, guid, attrs, tm, payload, sd] => some (genVarSign name guid attrs tm payload sd)
+  | "gen.testfs.stored", [name, value] => some (genTestfsStored name value)
   | "gen.skipped", [] => some (toString (skipped.map (·.1)))
   | _, _ => none
 
